@@ -331,10 +331,38 @@ End Tree.
    something Hash.UnmarshalText / encoding/json rejects *)
 Inductive sib := SNull | SZero | SNonZero | SBad.
 
-Record mtpj := mkmtpj {
+(* Member lookup of encoding/json when it decodes an object into a struct: a member
+   name matches a field case-insensitively, every occurrence assigns the field, so
+   the LAST matching member wins ("siblings", "Siblings", "SIBLINGS" are the same
+   field).  (ASCII case folding; json's Unicode simple folding is not modelled.) *)
+Definition lower_ascii (c : ascii) : ascii :=
+  let n := nat_of_ascii c in
+  if Nat.leb 65 n && Nat.leb n 90 then ascii_of_nat (n + 32) else c.
+Fixpoint lower (s : string) : string :=
+  match s with EmptyString => EmptyString | String c t => String (lower_ascii c) (lower t) end.
+Definition ci_eqb (a b : string) : bool := String.eqb (lower a) (lower b).
+
+(* the value of the last member whose name satisfies `same` (None: no such member) *)
+Fixpoint last_member {V} (same : string -> bool) (l : list (string * V)) (acc : option V) : option V :=
+  match l with
+  | [] => acc
+  | (n, v) :: t => last_member same t (if same n then Some v else acc)
+  end.
+
+Record mtpj := mkmtpj_m {
   mj_kinds_ok : bool;        (* "existence" is a bool, "node_aux" an object with decodable members *)
-  mj_sibs : list sib
+  mj_sib_members : list (string * list sib)
+                             (* in document order, the members whose name is "siblings" up to case,
+                                with the spelling used *)
 }.
+(* what a struct field tagged `json:"siblings"` ends up holding *)
+Definition mj_sibs (p : mtpj) : list sib :=
+  match last_member (ci_eqb "siblings") (mj_sib_members p) None with Some l => l | None => [] end.
+(* what a lookup of the exact key "siblings" in a map[string]json.RawMessage finds *)
+Definition mj_sibs_exact (p : mtpj) : list sib :=
+  match last_member (String.eqb "siblings") (mj_sib_members p) None with Some l => l | None => [] end.
+(* the usual shape: one member, spelled "siblings" *)
+Definition mkmtpj (kinds_ok : bool) (sibs : list sib) : mtpj := mkmtpj_m kinds_ok [("siblings", sibs)].
 
 (* NewProofFromData: sibling.Equals(&HashZero) dereferences the sibling;
    SetBitBigEndian(p.notempties[:], lvl) indexes a [30]byte with lvl/8 *)
@@ -375,13 +403,18 @@ Definition is_null (s : sib) : bool := match s with SNull => true | _ => false e
    shape check (`siblings` is an array of at most 240 non-null values) runs before
    the dependency's decoder.  Without the guard the dependency's decoder is called
    directly, as encoding/json did through *mt.Proof / mt.Proof fields. *)
-Definition decode_mtp (g : guards) (p : mtpj) : res unit :=
+(* `exact_shape`: the shape check reads the siblings by exact key from a map instead of
+   through a struct field - NOT what /repo does; kept to show why it must not *)
+Definition decode_mtp_with (exact_shape : bool) (g : guards) (p : mtpj) : res unit :=
   if g_mtpjson g then
+    let shape := if exact_shape then mj_sibs_exact p else mj_sibs p in
     if negb (mj_kinds_ok p) then Err "mtp-json"
-    else if Nat.ltb 240 (List.length (mj_sibs p)) then Err "mtp-too-many-siblings"
-    else if existsb is_null (mj_sibs p) then Err "mtp-null-sibling"
+    else if Nat.ltb 240 (List.length shape) then Err "mtp-too-many-siblings"
+    else if existsb is_null shape then Err "mtp-null-sibling"
     else mt_proof_unmarshal p
   else mt_proof_unmarshal p.
+
+Definition decode_mtp (g : guards) (p : mtpj) : res unit := decode_mtp_with false g p.
 
 (* an optional "mtp" member (absent / null: the proof stays nil) *)
 Definition opt_mtp_unmarshal (g : guards) (o : option mtpj) : res unit :=
